@@ -61,7 +61,7 @@ impl Check for C09 {
         "C09"
     }
     fn cases(&self, tier: Tier) -> u64 {
-        tier.pick(6_000, 400_000)
+        tier.pick(6_000, 1_500_000)
     }
     fn run(&self, ctx: &Ctx, idx: u64, rec: &mut Recorder) {
         let mut rng = Rng::for_case(ctx.seed, "C09", idx);
